@@ -154,6 +154,10 @@ type sinks struct {
 	beats     int
 	cycleFunc func() int
 	onMsg     func(m msgObs)
+	// holdRecs / holdSums stall the consumer of the record / summary channel (a subscriber or socket
+	// that does not take data for a while): the sink takes nothing while the flag is set.
+	holdRecs bool
+	holdSums bool
 }
 
 // lastMsg returns the most recent status message with the tag.
@@ -191,6 +195,14 @@ type pipeWorld struct {
 	stampJitter func(b int) time.Duration
 	blockFirst  []int       // first sample index of each block fed
 	blockStamp  []time.Time // time stamp given to each block fed
+	// hardware data loss (faulted runs): the next block fed starts gapNext frames after the end of the
+	// previous one (the frames in between were never delivered) and/or carries dropNext as its
+	// droppedFrames count (an Abaco source reports filled-in packet loss that way, with contiguous numbering)
+	gapNext     int
+	dropNext    int
+	gapSum      int          // frames skipped so far
+	blockFrame0 []FrameIndex // first frame number of each block fed
+	blockDrop   []int        // droppedFrames flag of each block fed
 }
 
 // newSourceControl builds the server object the way RunRPCServer does (minus sockets).
@@ -256,12 +268,16 @@ func (w *pipeWorld) feedBlock(n int, mod func(b *dataBlock)) {
 	}
 	b := new(dataBlock)
 	b.segments = make([]DataSegment, w.nchan)
-	stamp := w.T0.Add(time.Duration(w.sent) * w.period)
+	w.gapSum += w.gapNext
+	frame0 := w.F0 + FrameIndex(w.sent) + FrameIndex(w.gapSum)
+	stamp := w.T0.Add(time.Duration(w.sent+w.gapSum) * w.period)
 	if w.stampJitter != nil {
 		stamp = stamp.Add(w.stampJitter(w.fed))
 	}
 	w.blockFirst = append(w.blockFirst, w.sent)
 	w.blockStamp = append(w.blockStamp, stamp)
+	w.blockFrame0 = append(w.blockFrame0, frame0)
+	w.blockDrop = append(w.blockDrop, w.dropNext)
 	for c := 0; c < w.nchan; c++ {
 		data := make([]RawType, n)
 		copy(data, w.stream[c][w.sent:w.sent+n])
@@ -269,11 +285,13 @@ func (w *pipeWorld) feedBlock(n int, mod func(b *dataBlock)) {
 			rawData:         data,
 			framesPerSample: 1,
 			framePeriod:     w.period,
-			firstFrameIndex: w.F0 + FrameIndex(w.sent),
+			firstFrameIndex: frame0,
 			firstTime:       stamp,
 			signed:          w.signed[c],
+			droppedFrames:   w.dropNext,
 		}
 	}
+	w.gapNext, w.dropNext = 0, 0
 	b.nSamp = n
 	if mod != nil {
 		mod(b)
